@@ -42,11 +42,23 @@ def ensure_dirs():
         os.makedirs(d, exist_ok=True)
 
 
+_WORKDIRS = []
+
+
 def workdir(name):
     d = os.path.join(WORK, name + run_tag())
     shutil.rmtree(d, ignore_errors=True)
     os.makedirs(d)
+    _WORKDIRS.append(d)
     return d
+
+
+def drop_workdirs():
+    """thorough runs leave gigabytes of traces behind: remove them once the verdict is written (replay files and evidence
+    live elsewhere); quick-tier directories are small and are kept for inspection until the next run"""
+    for d in _WORKDIRS:
+        shutil.rmtree(d, ignore_errors=True)
+    del _WORKDIRS[:]
 
 
 # ------------------------------------------------------------------------------------------------
@@ -266,6 +278,8 @@ class Verdict:
         with open(os.path.join(evdir, "%s.json" % self.prop), "w") as f:
             json.dump(ev, f, indent=1)
         sys.stdout.flush()
+        if self.tier == "thorough" and not new:
+            drop_workdirs()
         return 1 if new else 0
 
 
